@@ -59,7 +59,16 @@ Seek(o) == /\ nops < MaxOps
               /\ off' = IF ok THEN o ELSE 0
               /\ hist' = Append(hist, [op |-> "seek", a |-> o, bytes |-> <<>>, eof |-> ~ok, off |-> off', hits |-> hits, misses |-> misses])
            /\ nops' = nops + 1 /\ UNCHANGED <<file, lru, slot, hits, misses>>
+\* Reset(rs): the cache object is handed another file (the patcher keeps ONE cache for all old files of a patch):
+\* everything cached is forgotten, counters restart. `same`: the caller passes the very same reader object, whose
+\* content changed underneath (same length) - nothing may survive that either.
+Reverse(s) == [i \in 1..Len(s) |-> s[Len(s) + 1 - i]]
+Reset(same) == /\ nops < MaxOps
+               /\ file' = Reverse(file) /\ off' = 0 /\ lru' = <<>> /\ slot' = <<>> /\ hits' = 0 /\ misses' = 0
+               /\ hist' = Append(hist, [op |-> "reset", a |-> IF same THEN 0 ELSE 1, bytes |-> Reverse(file), eof |-> FALSE, off |-> 0, hits |-> 0, misses |-> 0])
+               /\ nops' = nops + 1
 Next == (\E n \in 1..(MaxLen + 1) : Read(n)) \/ (\E o \in 0..(MaxLen + 1) : Seek(o))
+NextR == Next \/ (\E same \in BOOLEAN : Reset(same))
 Spec == Init /\ [][Next]_vars
 Terminating == nops = MaxOps /\ UNCHANGED vars
 MCSpec == Init /\ [][Next \/ Terminating]_vars
@@ -78,5 +87,6 @@ View == <<file, off, lru, slot, nops>>
 InitRamp == /\ file = [i \in 1..MaxLen |-> i - 1] /\ off = 0 /\ lru = <<>> /\ slot = <<>>
             /\ hits = 0 /\ misses = 0 /\ nops = 0 /\ hist = <<>>
 SpecRamp == InitRamp /\ [][Next]_vars
-EmitFull == nops' < MaxOps \/ PrintT(<<"EDGE", ToJson([file |-> file, hist |-> hist'])>>)
+SpecRampR == InitRamp /\ [][NextR]_vars            \* ... with resets
+EmitFull == nops' < MaxOps \/ PrintT(<<"EDGE", ToJson([file |-> [i \in 1..MaxLen |-> i - 1], hist |-> hist'])>>)   \* (file: the INITIAL content)
 =============================================================================
